@@ -612,12 +612,22 @@ fn impl_object_for_struct(ast: &DeriveInput, fields: &Fields) -> SynStream {
                     let primitive: Option<pdf::primitive::Primitive>
                         = dict.remove(#key);
                     let x: #ty = match primitive {
-                        Some(primitive) => <#ty as pdf::object::Object>::from_primitive(primitive, resolve).map_err(|e|
-                            pdf::error::PdfError::FromPrimitive {
-                                typ: #typ,
-                                field: stringify!(#name),
-                                source: Box::new(e)
-                            })?,
+                        Some(primitive) => {
+                            let referenced = match primitive {
+                                pdf::primitive::Primitive::Reference(r) => Some(r.id),
+                                _ => None
+                            };
+                            match <#ty as pdf::object::Object>::from_primitive(primitive, resolve) {
+                                Ok(x) => x,
+                                // a reference to a missing object is a reference to null: the entry is absent
+                                Err(ref e) if referenced.map_or(false, |id| e.is_missing_object(id)) => #default,
+                                Err(e) => return Err(pdf::error::PdfError::FromPrimitive {
+                                    typ: #typ,
+                                    field: stringify!(#name),
+                                    source: Box::new(e)
+                                })
+                            }
+                        }
                         None => #default,
                     };
                     x
@@ -626,24 +636,32 @@ fn impl_object_for_struct(ast: &DeriveInput, fields: &Fields) -> SynStream {
         } else {
             quote! {
                 let #name = {
+                    // Try to construct T from Primitive::Null
+                    let absent = || match <#ty as pdf::object::Object>::from_primitive(pdf::primitive::Primitive::Null, resolve) {
+                        Ok(obj) => Ok(obj),
+                        Err(_) => Err(pdf::error::PdfError::MissingEntry {
+                            typ: #typ,
+                            field: String::from(stringify!(#name)),
+                        })
+                    };
                     match dict.remove(#key) {
-                        Some(primitive) =>
+                        Some(primitive) => {
+                            let referenced = match primitive {
+                                pdf::primitive::Primitive::Reference(r) => Some(r.id),
+                                _ => None
+                            };
                             match <#ty as pdf::object::Object>::from_primitive(primitive, resolve) {
                                 Ok(obj) => obj,
+                                // a reference to a missing object is a reference to null: the entry is absent
+                                Err(ref e) if referenced.map_or(false, |id| e.is_missing_object(id)) => absent()?,
                                 Err(e) => return Err(pdf::error::PdfError::FromPrimitive {
                                     typ: stringify!(#ty),
                                     field: stringify!(#name),
                                     source: Box::new(e)
                                 })
                             }
-                        None =>  // Try to construct T from Primitive::Null
-                            match <#ty as pdf::object::Object>::from_primitive(pdf::primitive::Primitive::Null, resolve) {
-                                Ok(obj) => obj,
-                                Err(_) => return Err(pdf::error::PdfError::MissingEntry {
-                                    typ: #typ,
-                                    field: String::from(stringify!(#name)),
-                                })
-                            },
+                        }
+                        None => absent()?,
                     }
                     // ^ By using Primitive::Null when we don't find the key, we allow 'optional'
                     // types like Option and Vec to be constructed from non-existing values
